@@ -71,12 +71,14 @@ class Increments(Machine):
     STUB = []
     ASSUMPTIONS = ["forgetting_factor = 1", "float64", ">= 2 features per vertex for GMRF; the first GMRF batch "
                    "has enough samples for every edge covariance to be invertible",
-                   "no trimming / lowering of active components between increments", "no exactly-zero data mean"]
+                   "no trimming / lowering of active components between increments", "no exactly-zero data mean",
+                   "malformed increments (wrong feature count) are only sent to PCA models; a GMRF rebuilds its precision from "
+                   "per-edge covariances on every increment and its behaviour after a failed increment is not judged"]
     REQUIRED_PROBES = ("chunk_of_1", "first_batch_below_d_then_crossing", "many_tiny_chunks",
                        "chunk_larger_than_all_before", "pca_centred", "pca_uncentred", "gmrf_sparse", "gmrf_dense",
                        "gmrf_subtraction", "gmrf_concatenation", "gmrf_bias1", "rejected_increment",
                        "graph_edgeless", "graph_chain", "graph_cycle", "graph_tree", "graph_directed",
-                       "object_backed")
+                       "object_backed", "malformed_increment_refused")
 
     @classmethod
     def _cfg(cls, rng):
@@ -109,12 +111,14 @@ class Increments(Machine):
             s = rng.randint(4, 20)
         else:
             s = rng.choice([1, 1, 2, 3, 4, 5, 7, 11])
+        if cfg["family"].startswith("pca") and rng.random() < 0.12:
+            return {"op": "bad_inc", "size": max(1, s % 4), "extra": rng.choice([1, 2])}
         return {"op": "inc", "size": s}
 
     @classmethod
     def history_key(cls, cfg, ops):
         return (sorted((k, str(v)) for k, v in cfg.items() if k not in ("steps", "style", "seed", "kind")),
-                [o["size"] for o in ops])
+                [(o["op"], o["size"]) for o in ops])
 
     @classmethod
     def exhaustive(cls, tier):
@@ -204,8 +208,33 @@ class Increments(Machine):
         return cls_(self._samples(rows), self.graph, mode=c["mode"], sparse=c["sparse"], bias=c["bias"],
                     incremental=incremental)
 
+    def _bad_increment(self, op):
+        """A malformed increment in the middle of the history (samples with the wrong number of features), which the
+        caller catches: it must be refused and must not disturb the model - checked at once and, above all, by
+        the comparison with the batch model after the next genuine increment."""
+        ctx = self.ctx
+        g = rs(self.cfg["seed"] ^ (self.pos * 31 + op["size"]))
+        k = op["size"]
+        extra = op["extra"] * (2 if self.tmpl is not None else 1)
+        rows = g.randn(k, self.d + extra) * np.abs(self.X).max()
+        if self.tmpl is None:
+            arg = rows
+        else:
+            arg = [PointCloud(r.reshape(-1, 2).copy()) for r in rows]
+        try:
+            self.model.increment(arg)
+        except Exception:
+            ctx.probe("malformed_increment_refused")
+            self._compare_pca()
+            return
+        ctx.fail("rejects", "malformed_increment_accepted", "increment() with %d features per sample on a %d-feature model did not raise" % (self.d + extra, self.d))
+
     def step(self, op):
         ctx = self.ctx
+        if op["op"] == "bad_inc":
+            if self.fam.startswith("pca"):
+                self._bad_increment(op)
+            return
         s = op["size"]
         if s < 1 or self.pos + s > STREAM:
             return
